@@ -16,6 +16,7 @@ run_one() {
   nf=$(grep -c 'no-failing-input-found' $MX/log/$id.log)
   echo "$id rc=$rc violations=$v no-failing-input=$nf secs=$((end-start))"
   git -C /repo worktree remove --force $wt
+  TAG=$(echo "$wt" | md5sum | cut -c1-8); rm -f $ROOT/bin/glcheck.$TAG $ROOT/bin/glcheck-race.$TAG $ROOT/.work/go.$TAG.*
 }
 export -f run_one; export ROOT MX TIER
 echo $ids | tr ' ' '\n' | xargs -P ${PAR:-4} -I{} bash -c 'run_one {}'
